@@ -75,6 +75,10 @@ func (f *fper) walk(v reflect.Value, depth int) {
 		f.h.Write([]byte(v.String()))
 	case reflect.Array:
 		f.tag('a', uint64(v.Len()))
+		if t.Elem().Kind() == reflect.Uint8 && v.CanAddr() {
+			f.h.Write(v.Bytes())
+			return
+		}
 		for i := 0; i < v.Len(); i++ {
 			f.walk(v.Index(i), depth+1)
 		}
@@ -85,6 +89,10 @@ func (f *fper) walk(v reflect.Value, depth int) {
 		}
 		f.tag('l', uint64(v.Len()))
 		f.tag('c', uint64(v.Cap()))
+		if t.Elem().Kind() == reflect.Uint8 {
+			f.h.Write(v.Bytes())
+			return
+		}
 		for i := 0; i < v.Len(); i++ {
 			f.walk(v.Index(i), depth+1)
 		}
